@@ -68,11 +68,88 @@ def run_shard(shard):
                 later_document_family(st, wd)
                 output_file_family(st, wd)
                 other_target_family(st, wd)
+                awkward_text_family(st, wd)
         elif shard[0] == "save":
             save_faults(st, wd, shard[1], shard[2], pairs=False)
         else:
             save_faults(st, wd, shard[1], shard[2], pairs=True)
     return st
+
+
+AWKWARD = [
+    # (name, bytes of a JSON-written document)
+    ("surrogate-pair-escape", b'{"name": "smile \\ud83d\\ude00", "n": 1}\n'),
+    ("lone-surrogate-escape", b'{"name": "half \\ud800 x", "n": 1}\n'),
+    ("non-bmp-character", '{"name": "smile \U0001F600", "n": 1}\n'.encode()),
+    ("latin-1-character", '{"name": "caf\u00e9", "n": 1}\n'.encode()),
+    ("control-escape", b'{"name": "bell \\u0007 sep \\u2028", "n": 1}\n'),
+    ("plain", b'{"name": "smile", "n": 1}\n'),
+]
+
+
+def awkward_text_family(st, wd):
+    """JSON-written documents (a .json file, a flow-style root in a .yaml
+    file) holding text which is awkward to write back - escaped surrogates,
+    characters outside the BMP / ASCII, control characters: a yaml-set run
+    which ends with a failure status has changed no file, one which succeeds
+    leaves the change in a loadable file and, with --backup, the pre-image in
+    the .bak."""
+    import json as _json
+    for name, data in AWKWARD:
+        for fname in ("target.json", "target.yaml"):
+            for backup in (False, True):
+                for stale in (False, True):
+                    files = {fname: data}
+                    if stale:
+                        files[fname + ".bak"] = STALE
+                    reset(wd, files)
+                    before = snapshot(wd)
+                    argv = ["--change=/n", "--value=2"] + (
+                        ["--backup"] if backup else []) + [
+                            os.path.join(wd, fname)]
+                    res = cli.run("yaml-set", argv, cwd=wd)
+                    after = snapshot(wd)
+                    case = {"doc": data.decode("utf-8", "replace"),
+                            "file": fname, "argv": argv[:-1],
+                            "backup": backup, "stale_bak": stale,
+                            "tool": "yaml-set", "cause": "awkward:" + name}
+                    st.evaluations += 1
+                    st.transitions += 1
+                    st.validated += 1
+                    st.states += 1
+                    ok = res.code == 0 and res.exc is None
+                    st.outcomes["yaml-set:awkward:%s" % (
+                        "ok" if ok else "failed")] += 1
+                    st.sig("awkward", name, fname, backup, stale, ok)
+                    if not ok:
+                        if after != before:
+                            changed = sorted(set(before) ^ set(after)) + [
+                                k for k in before
+                                if k in after and before[k] != after[k]]
+                            st.fail("yaml-set|awkward-text|files-changed",
+                                    case, "a failed run changes no file",
+                                    "exit %r %r; changed: %r" % (
+                                        res.code, res.exc, changed))
+                        continue
+                    try:
+                        got = _json.loads(after[fname].decode("utf-8"))
+                    except Exception as ex:   # pylint: disable=broad-except
+                        got = repr(ex)
+                    if not isinstance(got, dict) or got.get("n") != 2 or \
+                            not isinstance(got.get("name"), str):
+                        st.fail("yaml-set|awkward-text|result-unreadable",
+                                case, "the document with n: 2",
+                                repr(got)[:200])
+                        continue
+                    bak = after.get(fname + ".bak")
+                    if backup and bak != data:
+                        st.fail("yaml-set|awkward-text|backup-not-the-"
+                                "pre-image", case, "the pre-image bytes",
+                                repr(bak)[:120])
+                    elif not backup and bak != (STALE if stale else None):
+                        st.fail("yaml-set|awkward-text|backup-touched", case,
+                                "no backup asked for", repr(bak)[:120])
+    reset(wd, {})
 
 
 def symlink_family(st, wd):
@@ -585,6 +662,8 @@ def replay(case):
             new_target_family(st, wd)
         elif case.get("symlink"):
             symlink_family(st, wd)
+        elif str(case.get("cause", "")).startswith("awkward:"):
+            awkward_text_family(st, wd)
         elif case.get("cause"):
             for di in range(len(DOCS)):
                 pre_write(st, wd, di)
